@@ -48,9 +48,214 @@ struct GridSpec {
     cols: u8,
     half: bool, // 0.5 degree spacing instead of 1
     vseed: u32,
+    #[serde(default)]
+    nt: Option<NtSpec>, // an NTv2 file with nested sub-grids instead of a Gravsoft grid
+}
+
+/// NTv2 file: root grid = the GridSpec rectangle; child sub-grids cover whole root cells with a
+/// finer spacing and node values of their own (so that the choice of sub-grid is visible on the
+/// child's border). `shipped`: the repository's geodesy/gsb/5458_with_subgrid.gsb instead.
+#[derive(Clone, Debug, Serialize, Deserialize)]
+struct NtSpec {
+    sub: u8,       // child spacing = root spacing / sub (2 or 4)
+    a: u16,        // picks of the child's rows/columns (in root cells)
+    b: u16,
+    c: u16,
+    d: u16,
+    two: bool,     // a second child sharing the first one's eastern edge
+    grand: bool,   // a grandchild in the south-west root cell of the first child
+    shipped: bool,
+}
+
+/// one sub-grid of an NTv2 file: limits and spacing in arcsec, longitudes positive EAST
+#[derive(Clone, Debug)]
+struct Rect {
+    name: String,
+    parent: String,
+    s: i64,
+    n: i64,
+    w: i64,
+    e: i64,
+    dlat: i64,
+    dlon: i64,
+    leaf: bool,
+}
+
+impl Rect {
+    fn rows(&self) -> i64 {
+        (self.n - self.s) / self.dlat + 1
+    }
+    fn cols(&self) -> i64 {
+        (self.e - self.w) / self.dlon + 1
+    }
+    /// limits in radians, computed as the library's NTv2 header parser does
+    fn lat(&self, arcsec: f64) -> f64 {
+        arcsec.to_radians() / 3600.
+    }
+    fn lon(&self, arcsec_east: f64) -> f64 {
+        -(-arcsec_east).to_radians() / 3600.
+    }
 }
 
 impl GridSpec {
+    fn rects(&self, la: i32, lo: i32) -> Vec<Rect> {
+        let Some(nt) = &self.nt else { return vec![] };
+        if nt.shipped {
+            return vec![
+                Rect { name: "5458".into(), parent: "NONE".into(), s: 54 * 3600, n: 58 * 3600, w: 8 * 3600, e: 16 * 3600, dlat: 3600, dlon: 3600, leaf: false },
+                Rect { name: "5556".into(), parent: "5458".into(), s: 55 * 3600, n: 56 * 3600, w: 12 * 3600, e: 14 * 3600, dlat: 1800, dlon: 1800, leaf: true },
+            ];
+        }
+        let d: i64 = if self.half { 1800 } else { 3600 };
+        let rows = (self.rows as i64).max(3);
+        let cols = (self.cols as i64).max(3);
+        let s = (la + self.off_lat) as i64 * 3600;
+        let w = (lo + self.off_lon) as i64 * 3600;
+        let mut v = vec![Rect { name: "ROOT".into(), parent: "NONE".into(), s, n: s + d * (rows - 1), w, e: w + d * (cols - 1), dlat: d, dlon: d, leaf: false }];
+        // child rows r0 < r1 and columns c0 < c1 in root cells
+        let span = |x: u16, y: u16, cells: i64| -> (i64, i64) {
+            let a = pick(x, cells as usize) as i64;
+            let b = 1 + pick(y, cells as usize) as i64;
+            if a < b {
+                (a, b)
+            } else {
+                (b - 1, a + 1)
+            }
+        };
+        let (r0, r1) = span(nt.a, nt.b, rows - 1);
+        let cd = d / nt.sub.max(1) as i64;
+        let (c0, c1) = if nt.two {
+            // two children side by side: [c0, cs] and [cs, c1]
+            let cs = 1 + pick(nt.c, (cols - 2) as usize) as i64;
+            let c0 = pick(nt.d, cs as usize) as i64;
+            let c1 = cs + 1 + pick(nt.d, (cols - 1 - cs) as usize) as i64;
+            let (q0, q1) = span(nt.b, nt.a, rows - 1);
+            v.push(Rect { name: "EAST".into(), parent: "ROOT".into(), s: s + d * q0, n: s + d * q1, w: w + d * cs, e: w + d * c1, dlat: cd, dlon: cd, leaf: true });
+            (c0, cs)
+        } else {
+            span(nt.c, nt.d, cols - 1)
+        };
+        v.push(Rect { name: "WEST".into(), parent: "ROOT".into(), s: s + d * r0, n: s + d * r1, w: w + d * c0, e: w + d * c1, dlat: cd, dlon: cd, leaf: !nt.grand });
+        if nt.grand {
+            v.push(Rect { name: "GRAND".into(), parent: "WEST".into(), s: s + d * r0, n: s + d * (r0 + 1), w: w + d * c0, e: w + d * (c0 + 1), dlat: cd / 2, dlon: cd / 2, leaf: true });
+        }
+        v
+    }
+
+    /// special positions (lon, lat radians): corners, edge points, points a hair inside/outside the
+    /// upper limits, interior points of every sub-grid; derived the way the library derives the limits
+    fn specials(&self, la: i32, lo: i32) -> Vec<[f64; 2]> {
+        let mut out = vec![];
+        for r in self.rects(la, lo) {
+            let (s, n, w, e) = (r.s as f64, r.n as f64, r.w as f64, r.e as f64);
+            let (dl, dn) = (r.dlon as f64, r.dlat as f64);
+            let mid_lon = w + dl * ((r.cols() / 2) as f64) + dl / 4.0;
+            let mid_lat = s + dn * ((r.rows() / 2) as f64) - dn / 4.0;
+            let mut add = |lon: f64, lat: f64| out.push([r.lon(lon), r.lat(lat)]);
+            // corners
+            for lon in [w, e] {
+                for lat in [s, n] {
+                    add(lon, lat);
+                }
+            }
+            // edges: at a node and between nodes
+            for lat in [s, n] {
+                add(w + dl, lat);
+                add(mid_lon, lat);
+                add(e - dl / 2.0, lat);
+            }
+            for lon in [w, e] {
+                add(lon, s + dn);
+                add(lon, mid_lat);
+                add(lon, n - dn / 2.0);
+            }
+            // a hair inside / outside the upper limits (tolerance of the library: 1e-6 cells)
+            for k in [-3e-6, -5e-7, 5e-7, 3e-6] {
+                add(mid_lon, n + k * dn);
+                add(e + k * dl, mid_lat);
+            }
+            // interior
+            add(mid_lon, mid_lat);
+            add(w + dl / 3.0, s + dn / 3.0);
+            add(e - dl / 8.0, n - dn / 8.0);
+            add(w + dl, s + dn);
+        }
+        out
+    }
+
+    fn bytes(&self, la: i32, lo: i32) -> Result<Vec<u8>, String> {
+        let Some(nt) = &self.nt else { return Ok(self.text(la, lo).into_bytes()) };
+        if nt.shipped {
+            let dir = std::env::var("VERIF_REPO_DIR").unwrap_or_else(|_| "/repo".into());
+            return std::fs::read(std::path::Path::new(&dir).join("geodesy/gsb/5458_with_subgrid.gsb")).map_err(|e| format!("{e}"));
+        }
+        let rects = self.rects(la, lo);
+        let mut b: Vec<u8> = vec![];
+        fn key(b: &mut Vec<u8>, k: &str) {
+            let mut kk = [b' '; 8];
+            kk[..k.len()].copy_from_slice(k.as_bytes());
+            b.extend_from_slice(&kk);
+        }
+        fn rec_i(b: &mut Vec<u8>, k: &str, v: i32) {
+            key(b, k);
+            b.extend_from_slice(&v.to_le_bytes());
+            b.extend_from_slice(&[0; 4]);
+        }
+        fn rec_s(b: &mut Vec<u8>, k: &str, v: &str) {
+            key(b, k);
+            key(b, v);
+        }
+        fn rec_f(b: &mut Vec<u8>, k: &str, v: f64) {
+            key(b, k);
+            b.extend_from_slice(&v.to_le_bytes());
+        }
+        rec_i(&mut b, "NUM_OREC", 11);
+        rec_i(&mut b, "NUM_SREC", 11);
+        rec_i(&mut b, "NUM_FILE", rects.len() as i32);
+        rec_s(&mut b, "GS_TYPE", "SECONDS");
+        rec_s(&mut b, "VERSION", "C02");
+        rec_s(&mut b, "SYSTEM_F", "FROM");
+        rec_s(&mut b, "SYSTEM_T", "TO");
+        rec_f(&mut b, "MAJOR_F", 6378137.0);
+        rec_f(&mut b, "MINOR_F", 6356752.314);
+        rec_f(&mut b, "MAJOR_T", 6378137.0);
+        rec_f(&mut b, "MINOR_T", 6356752.314);
+        // the file order of sub-grids is arbitrary by the format: children first for odd seeds
+        let mut order: Vec<usize> = (0..rects.len()).collect();
+        if self.vseed % 2 == 1 {
+            order.reverse();
+        }
+        for &i in &order {
+            let r = &rects[i];
+            rec_s(&mut b, "SUB_NAME", &r.name);
+            rec_s(&mut b, "PARENT", &r.parent);
+            rec_s(&mut b, "CREATED", "20260927");
+            rec_s(&mut b, "UPDATED", "20260927");
+            rec_f(&mut b, "S_LAT", r.s as f64);
+            rec_f(&mut b, "N_LAT", r.n as f64);
+            rec_f(&mut b, "E_LONG", -(r.e as f64));
+            rec_f(&mut b, "W_LONG", -(r.w as f64));
+            rec_f(&mut b, "LAT_INC", r.dlat as f64);
+            rec_f(&mut b, "LONG_INC", r.dlon as f64);
+            rec_i(&mut b, "GS_COUNT", (r.rows() * r.cols()) as i32);
+            for row in 0..r.rows() as u64 {
+                for col in 0..r.cols() as u64 {
+                    for band in 0..2u64 {
+                        let mut sd = ((self.vseed as u64) << 24) ^ ((i as u64) << 20) ^ (band << 18) ^ (row << 9) ^ col;
+                        let h = splitmix(&mut sd);
+                        // +-8 arcsec in eighths, plus an offset per sub-grid: borders never agree
+                        let v = (((h % 129) as f32) - 64.0) / 8.0 + 3.0 * i as f32;
+                        b.extend_from_slice(&v.to_le_bytes());
+                    }
+                    b.extend_from_slice(&[0; 8]); // accuracies
+                }
+            }
+        }
+        key(&mut b, "END");
+        b.extend_from_slice(&[0; 8]);
+        Ok(b)
+    }
+
     fn text(&self, la: i32, lo: i32) -> String {
         let d = if self.half { 0.5 } else { 1.0 };
         let lat_s = (la + self.off_lat) as f64;
@@ -298,6 +503,49 @@ fn grid_spec(bands: u8) -> BS<GridSpec> {
             cols,
             half,
             vseed,
+            nt: None,
+        })
+        .boxed()
+}
+
+fn nt_grid_spec() -> BS<GridSpec> {
+    (-4..=-1i32, -5..=-1i32, 3u8..=6, 3u8..=7, any::<bool>(), any::<u32>(), (sel(&[2u8, 2, 4]), any::<u16>(), any::<u16>(), any::<u16>(), any::<u16>(), any::<bool>(), prop::bool::weighted(0.3)))
+        .prop_map(|(off_lat, off_lon, rows, cols, half, vseed, (sub, a, b, c, d, two, grand))| GridSpec {
+            name: format!("c02_nt_{vseed:08x}.gsb"),
+            bands: 2,
+            off_lat,
+            off_lon,
+            rows,
+            cols,
+            half,
+            vseed,
+            nt: Some(NtSpec { sub, a, b, c, d, two, grand, shipped: false }),
+        })
+        .boxed()
+}
+
+/// gridshift on an NTv2 file with nested sub-grids (generated, or the shipped 5458_with_subgrid.gsb
+/// served by GridCtx), optionally followed by a Gravsoft grid and/or @null
+fn ntv2_gridshift(force_null: bool) -> BS<Step> {
+    (nt_grid_spec(), prop::bool::weighted(0.12), prop::option::weighted(0.25, grid_spec(2)), prop::bool::weighted(0.4))
+        .prop_map(move |(mut g, shipped, extra, null)| {
+            if shipped {
+                g.name = "5458_with_subgrid.gsb".to_string();
+                g.nt.as_mut().unwrap().shipped = true;
+            }
+            let null = null || force_null;
+            let mut names = vec![g.name.clone()];
+            let mut gs = vec![g];
+            if let Some(x) = extra {
+                names.push(x.name.clone());
+                gs.push(x);
+            }
+            if null {
+                names.push("@null".to_string());
+            }
+            let mut s = Step::new(format!("gridshift grids={}", names.join(",")), "gridshift:ntv2", GeoRad, GeoRad, if null { 0b0011 } else { 0b1111 }, true);
+            s.grids = gs;
+            s
         })
         .boxed()
 }
@@ -348,6 +596,7 @@ fn gridshift_steps(cap: u8) -> Vec<(u32, BS<Step>)> {
         })
         .boxed();
     v.push((5, s));
+    v.push((4, ntv2_gridshift(with_null_only)));
     if cap & 0b0100 != 0 {
         let s = grid_list(1, with_null_only)
             .prop_map(|(list, gs, null)| {
@@ -763,6 +1012,7 @@ fn region() -> BS<(i32, i32)> {
 enum Focus {
     All,
     Grid,
+    Ntv2,
     Helmert,
 }
 
@@ -772,6 +1022,7 @@ fn elementary_spec(hk: bool, focus: Focus) -> BS<OpSpec> {
         .prop_flat_map(move |(la, lo)| {
             let all: BS<Step> = match focus {
                 Focus::Helmert => helmert(false, false),
+                Focus::Ntv2 => ntv2_gridshift(false),
                 Focus::Grid => {
                     let mut g = gridshift_steps(0b1111);
                     g.push((5, deformation_step()));
@@ -873,6 +1124,7 @@ struct Dom {
     span: f64,
     centre: [f64; 2],
     uniform_t: bool,
+    specials: Vec<[f64; 2]>, // (lon, lat) radians: positions on and around NTv2 sub-grid limits
 }
 
 fn geo_to_cart(lon: f64, lat: f64, h: f64) -> (f64, f64, f64) {
@@ -988,6 +1240,19 @@ fn build_pts(raw: &[RawPt], d: &Dom, epochs: &[F]) -> Vec<P4> {
     for r in raw {
         let t = if d.uniform_t { t0 } else { epochs[pick(r.e, epochs.len())].0 };
         let mut p = match class_of(r.cls) {
+            0 if r.cls < 30 && !d.specials.is_empty() && matches!(d.kind, GeoRad | GeoDeg) => {
+                // on / next to a limit of an NTv2 sub-grid, or inside one
+                let sp = d.specials[pick(r.dup, d.specials.len())];
+                let mut p = valid_pt(r, d, t);
+                if d.kind == GeoRad {
+                    p[0] = F(sp[0]);
+                    p[1] = F(sp[1]);
+                } else {
+                    p[0] = F(sp[1].to_degrees());
+                    p[1] = F(sp[0].to_degrees());
+                }
+                p
+            }
             1 if !out.is_empty() => out[pick(r.dup, out.len())],
             2 => odd_pt(r, d, t),
             3 => {
@@ -1032,6 +1297,7 @@ fn dom_for(spec: &OpSpec, fwd: bool, span: f64, hk: bool) -> Dom {
         span: if spec.grids.is_empty() { span } else { span.min(5.0) },
         centre: if fwd { [spec.in_centre[0].0, spec.in_centre[1].0] } else { [spec.out_centre[0].0, spec.out_centre[1].0] },
         uniform_t: hk && (spec.dynhel & 3) != 0,
+        specials: spec.grids.iter().flat_map(|g| g.specials(spec.la, spec.lo)).collect(),
     }
 }
 
@@ -1084,8 +1350,8 @@ fn dirname(fwd: bool) -> &'static str {
 fn make_gridctx(spec: &OpSpec) -> Result<GridCtx, String> {
     let mut ctx = GridCtx::new();
     for g in &spec.grids {
-        let text = g.text(spec.la, spec.lo);
-        ctx.add_grid_bytes(&g.name, text.as_bytes()).map_err(|e| format!("grid {} rejected: {e:?}", g.name))?;
+        let bytes = g.bytes(spec.la, spec.lo)?;
+        ctx.add_grid_bytes(&g.name, &bytes).map_err(|e| format!("grid {} rejected: {e:?}", g.name))?;
     }
     Ok(ctx)
 }
@@ -1145,6 +1411,11 @@ fn describe(spec: &OpSpec, fwd: bool) -> String {
     }
     if !spec.grids.is_empty() {
         s += &format!(", {} generated grid(s) around lat {} lon {}", spec.grids.len(), spec.la, spec.lo);
+        for g in &spec.grids {
+            for r in g.rects(spec.la, spec.lo) {
+                s += &format!("\n   NTv2 {} {}sub-grid {} (parent {}): lat {}..{} lon {}..{} deg, spacing {} arcsec", g.name, if r.leaf { "leaf " } else { "" }, r.name, r.parent, r.s as f64 / 3600., r.n as f64 / 3600., r.w as f64 / 3600., r.e as f64 / 3600., r.dlat);
+            }
+        }
     }
     s
 }
@@ -1166,7 +1437,9 @@ fn relations<C: Context>(ctx: &mut C, h: OpHandle, case: &Case, rec: &mut Rec, h
     // 2. singletons
     let mut one: Vec<Coor4D> = Vec::with_capacity(1);
     let mut sum = 0usize;
-    for i in 0..n {
+    // in reverse order: anything carried over from one apply call to the next (in the handle, the
+    // context or a shared resource) then meets another predecessor than inside the set
+    for i in (0..n).rev() {
         one.clear();
         one.push(input[i]);
         let c = app(ctx, h, fwd, &mut one, spec, "singleton")?;
@@ -1345,6 +1618,27 @@ fn relations<C: Context>(ctx: &mut C, h: OpHandle, case: &Case, rec: &mut Rec, h
     }
     if HK.load(std::sync::atomic::Ordering::Relaxed) && !helmert_section && (spec.dynhel & 16 != 0 || spec.dynhel & 3 != 0) {
         rec.count("excluded_known", 1);
+    }
+    // NTv2: where do the tuples lie relative to the child sub-grids?
+    if (if fwd { spec.in_kind } else { spec.out_kind }) == GeoRad {
+        for g in spec.grids.iter().filter(|g| g.nt.is_some()) {
+            for r in g.rects(spec.la, spec.lo).iter().filter(|r| r.parent != "NONE") {
+                let (s, nn, w, e) = (r.lat(r.s as f64), r.lat(r.n as f64), r.lon(r.w as f64), r.lon(r.e as f64));
+                for c in &input {
+                    let inside_lat = c[1] >= s && c[1] <= nn;
+                    let inside_lon = c[0] >= w && c[0] <= e;
+                    if inside_lat && inside_lon {
+                        if c[1] == nn || c[0] == e {
+                            rec.count("ntv2_tuples_exactly_on_upper_limit_of_a_child", 1);
+                        } else if c[1] == s || c[0] == w {
+                            rec.count("ntv2_tuples_exactly_on_lower_limit_of_a_child", 1);
+                        } else {
+                            rec.count("ntv2_tuples_inside_a_child", 1);
+                        }
+                    }
+                }
+            }
+        }
     }
     rec.count("tuples", n as u64);
     rec.count("applications", (n + 3 + nchunks + case.hist.len()) as u64);
@@ -1799,7 +2093,7 @@ fn main() {
     run.assume("success counts: additivity over parts is asserted for elementary operators; for pipelines (count = minimum over steps) only count(whole) >= sum(parts), and invariance under permutation");
     run.assume("containers: a pipeline is compared through a lower-dimensional container only if none of its steps can write (or NaN-stomp) a dimension the container does not carry; Coor32 containers only for single operators, comparing with the Vec<Coor4D> result rounded to f32 (exact: same f64 computation, then the same rounding)");
     run.assume("adapters (T, t) and (T, h, t) supply the fixed values on every read, so only the dimensions below the supplied ones are compared");
-    run.assume("grid operators use generated Gravsoft grids served by the harness context GridCtx; NTv2 files are not generated here");
+    run.assume("grid operators use generated Gravsoft grids and generated NTv2 files with nested sub-grids (plus the shipped 5458_with_subgrid.gsb), all served by the harness context GridCtx, which shares one decoded grid object between all handles of a context as Plain does");
     if hk {
         run.assume("the registered helmert finding (parameters carried over between tuples of differing epochs) is excluded by construction outside section helmert-epochs: bare dynamic helmert operators get sets with one common epoch, dynamic helmert steps inside pipelines get a pinned t_obs");
     }
@@ -1826,7 +2120,7 @@ fn main() {
         |c: &Case, rec: &mut Rec| check(c, rec, true),
     );
 
-    let n = run.scale(16_000, 200_000);
+    let n = run.scale(11_000, 200_000);
     run.section(
         "elementary",
         "one built-in operator (whole catalogue, valid parameters, optional inv) x direction x heterogeneous set of 0..2000 tuples (valid, duplicates, out-of-domain, partial/all NaN, arbitrary f64 classes, special epochs) x permutation x chunking (empty chunks included) x history of other applications x fresh context; whole = singletons = permuted = chunked = repeated bit for bit, count(whole) = sum over parts",
@@ -1844,7 +2138,16 @@ fn main() {
         |c: &Case, rec: &mut Rec| check(c, rec, false),
     );
 
-    let n = run.scale(10_000, 120_000);
+    let n = run.scale(8_000, 100_000);
+    run.section(
+        "ntv2-subgrids",
+        "gridshift on NTv2 files with nested sub-grids (generated: root + 1..2 children of 1/2 or 1/4 spacing, optionally a grandchild, node values of their own per sub-grid, file order of sub-grids varied; and the shipped 5458_with_subgrid.gsb), optionally followed by a Gravsoft grid and @null; sets mix, in random order and with repeats, tuples inside a child, in the parent only, exactly on each sub-grid's corners and four edges (limits computed as the library's header parser computes them), a hair (0.5e-6 / 3e-6 cells) either side of the upper limits, and outside; both directions; singletons are applied in reverse order so that a look-up hint surviving an apply call meets another predecessor",
+        n,
+        move || case_strategy(elementary_spec(hk, Focus::Ntv2), 60, hk),
+        |c: &Case, rec: &mut Rec| check(c, rec, false),
+    );
+
+    let n = run.scale(7_000, 120_000);
     run.section(
         "pipelines",
         "type-correct pipelines of 2..6 steps (geo:in, cart, helmert, deformation, gridshift, molodensky, projections and their inverses, adapt, axisswap, unitconvert, latitude, depth-balanced stack blocks, user macros) x direction x heterogeneous sets; same relations; count(whole) >= sum(parts)",
